@@ -44,7 +44,7 @@ type codeCfg struct {
 	recvType  string // Go name of the struct type
 	namespace string // Lean namespace of the generated definitions
 	imports   []string
-	prelude   string          // Lean text placed after the structure (environment conventions of this type)
+	prelude   string            // Lean text placed after the structure (environment conventions of this type)
 	skip      map[string]string // methods deliberately not translated → reason
 	ctors     []string          // package-level functions of the shape `return &T{…}` to translate as constructors
 	// strings as byte lists (the models of the request accessors compute on bytes) instead of Lean's String
@@ -57,6 +57,14 @@ type codeCfg struct {
 	libFields map[string]string
 	// a struct field whose type has no Lean counterpart becomes `Opaque` (a method that touches it is untranslated)
 	opaqueFields bool
+	// further struct types of the package to translate (plain data: their fields are read as `x.f`)
+	structs []string
+	// library constructors that wrap an environment field into an object whose method calls are calls of that
+	// environment (json.NewEncoder(w) …): full name → prefix of the recorded method names
+	envCtors map[string]string
+	// library functions whose first argument is an environment field and which act on it (http.Error(w, …)): full name →
+	// recorded name
+	envFuncs map[string]string
 }
 
 type unsupported struct{ why string }
@@ -67,7 +75,12 @@ var leanKeywords = map[string]bool{"at": true, "from": true, "have": true, "show
 	"fun": true, "do": true, "then": true, "else": true, "if": true, "let": true, "match": true, "with": true, "where": true,
 	"by": true, "local": true, "instance": true, "def": true, "theorem": true, "structure": true, "class": true, "import": true,
 	"namespace": true, "section": true, "variable": true, "universe": true, "for": true, "return": true, "mut": true,
-	"Type": true, "Prop": true, "Sort": true, "nomatch": true, "suffices": true, "calc": true, "using": true, "deriving": true}
+	"Type": true, "Prop": true, "Sort": true, "nomatch": true, "suffices": true, "calc": true, "using": true, "deriving": true,
+	"matches": true, "notation": true, "prefix": true, "infix": true, "infixl": true, "infixr": true, "postfix": true, "macro": true,
+	"syntax": true, "abbrev": true, "example": true, "axiom": true, "opaque": true, "inductive": true, "mutual": true,
+	"private": true, "protected": true, "partial": true, "unsafe": true, "noncomputable": true, "extends": true, "export": true,
+	"attribute": true, "set_option": true, "termination_by": true, "decreasing_by": true, "elab": true, "nofun": true, "fun_induction": true,
+	"assert": true, "unless": true, "try": true, "catch": true, "finally": true, "break": true, "continue": true, "forall": true, "exists": true}
 
 func leanIdent(s string) string {
 	if leanKeywords[s] {
@@ -95,6 +108,16 @@ func (g *goTranslator) leanType(t types.Type) string {
 	}
 	if a, ok := t.(*types.Alias); ok {
 		return g.leanType(types.Unalias(a))
+	}
+	if n, ok := t.(*types.Named); ok && n.Obj().Pkg() != nil && n.Obj().Pkg() == g.pkg.Types {
+		for _, sn := range g.cfg.structs {
+			if n.Obj().Name() == sn {
+				return sn
+			}
+		}
+	}
+	if it, ok := t.Underlying().(*types.Interface); ok && it.NumMethods() == 0 {
+		return "Any" // `interface{}`: a value the code only passes on; it stands for its identity
 	}
 	switch u := t.(type) {
 	case *types.Basic:
@@ -172,7 +195,7 @@ func (g *goTranslator) leanTypeAtom(t types.Type) string {
 
 func zeroOf(leanT string) string {
 	switch leanT {
-	case "Int", "Err":
+	case "Int", "Err", "Any":
 		return "0"
 	case "Bool", "Once":
 		return "false"
@@ -193,6 +216,7 @@ type mctx struct {
 	g        *goTranslator
 	recv     string            // Go name of the receiver variable
 	aliases  map[string]string // local → environment field it aliases (results of type assertions)
+	aliasPre map[string]string // local → prefix of the method names recorded for calls on it (json.NewEncoder(w) …)
 	results  []string          // named results (Lean names), in order
 	nres     int
 	tmp      int
@@ -302,16 +326,24 @@ func (m *mctx) hoist(line string) {
 	m.pre = append(m.pre, line)
 }
 
-// argInt: how an argument is shown to the environment (the environment sees integers: numbers as they are, byte slices
-// by their length)
+func atomOf(s string) string {
+	if strings.ContainsAny(s, " ") && !(strings.HasPrefix(s, "(") && strings.HasSuffix(s, ")") && balanced(s[1:len(s)-1])) {
+		return "(" + s + ")"
+	}
+	return s
+}
+
+// argInt: how an argument is shown to the environment: numbers, byte slices and strings as they are
 func (m *mctx) argInt(a ast.Expr) string {
 	t := m.g.leanType(m.g.info.Types[a].Type)
 	s := m.expr(a)
 	switch t {
-	case "Int":
-		return s
+	case "Int", "Any":
+		return "Arg.int " + atomOf(s)
 	case "Bytes":
-		return "(" + s + ".length : Int)"
+		return "Arg.bytes " + atomOf(s)
+	case "String":
+		return "Arg.str " + atomOf(s)
 	}
 	bad("argument of type %s passed to the environment", t)
 	return ""
@@ -375,6 +407,19 @@ func (m *mctx) expr(e ast.Expr) string {
 			return leanIdent(m.recv) + "." + leanIdent(x.Sel.Name)
 		}
 		if sel := m.g.info.Selections[x]; sel != nil && sel.Kind() == types.FieldVal {
+			if tv, ok := m.g.info.Types[x.X]; ok {
+				xt := tv.Type
+				if p, ok := xt.(*types.Pointer); ok {
+					xt = p.Elem()
+				}
+				if n, ok := xt.(*types.Named); ok && n.Obj().Pkg() == m.g.pkg.Types && len(sel.Index()) == 1 {
+					for _, sn := range m.g.cfg.structs {
+						if n.Obj().Name() == sn {
+							return m.atom(x.X) + "." + leanIdent(x.Sel.Name)
+						}
+					}
+				}
+			}
 			key := fieldOwner(sel) + "." + x.Sel.Name
 			if fn, ok := m.g.cfg.libFields[key]; ok {
 				return "(" + fn + " " + m.atom(x.X) + ")"
@@ -436,7 +481,7 @@ func (m *mctx) expr(e ast.Expr) string {
 		}
 		switch x.Op {
 		case token.ADD:
-			if m.g.leanType(m.g.info.Types[x].Type) == "String" {
+			if lt := m.g.leanType(m.g.info.Types[x].Type); lt == "String" || lt == "Bytes" {
 				return "(" + a + " ++ " + b + ")"
 			}
 			return "(" + a + " + " + b + ")"
@@ -540,7 +585,35 @@ func (m *mctx) libFunc(c *ast.CallExpr) (lean string, recv ast.Expr, ok bool) {
 	return
 }
 
+// pkgFuncName: the full name of the package-level function a call calls ("" when it is something else)
+func (m *mctx) pkgFuncName(c *ast.CallExpr) string {
+	var id *ast.Ident
+	switch f := c.Fun.(type) {
+	case *ast.Ident:
+		id = f
+	case *ast.SelectorExpr:
+		id = f.Sel
+	default:
+		return ""
+	}
+	if fn, ok := m.g.info.Uses[id].(*types.Func); ok {
+		return fn.FullName()
+	}
+	return ""
+}
+
 func (m *mctx) call(c *ast.CallExpr) string {
+	if name, ok := m.g.cfg.envFuncs[m.pkgFuncName(c)]; ok && len(c.Args) >= 1 {
+		if f, isEnv := m.envField(c.Args[0]); isEnv {
+			sig, _ := m.g.info.Types[c.Fun].Type.(*types.Signature)
+			n := 0
+			if sig != nil {
+				n = sig.Results().Len()
+			}
+			return m.envCall(f, name, c.Args[1:], n)
+		}
+		bad("%s on something that is not an environment field", name)
+	}
 	if lean, recv, ok := m.libFunc(c); ok {
 		if recv != nil && m.isRecv(recv) {
 			bad("library method on the receiver")
@@ -627,7 +700,20 @@ func (m *mctx) call(c *ast.CallExpr) string {
 	}
 	// environment call: w.f.M(args) or alias.M(args)
 	if f, isEnv := m.envField(se.X); isEnv {
-		return m.envCall(f, se.Sel.Name, c.Args, nres)
+		name := se.Sel.Name
+		if id, ok := se.X.(*ast.Ident); ok {
+			name = m.aliasPre[id.Name] + name
+		}
+		return m.envCall(f, name, c.Args, nres)
+	}
+	// w.f.A().B(args): a call on what a parameterless call of the environment returned (w.Header().Set(k, v)) is a call of
+	// the environment too, recorded as "A.B"
+	if inner, ok := se.X.(*ast.CallExpr); ok && len(inner.Args) == 0 {
+		if ise, ok := inner.Fun.(*ast.SelectorExpr); ok {
+			if f, isEnv := m.envField(ise.X); isEnv {
+				return m.envCall(f, ise.Sel.Name+"."+se.Sel.Name, c.Args, nres)
+			}
+		}
 	}
 	// method of the receiver
 	if m.isRecv(se.X) {
@@ -1054,6 +1140,21 @@ func (m *mctx) assign(x *ast.AssignStmt, ind string) string {
 		b.WriteString(m.assignOp(x.Lhs[0], x.Tok, rhs, ind))
 		return b.String()
 	}
+	// enc := json.NewEncoder(w.f): an object wrapped around an environment field
+	if len(x.Lhs) == 1 && len(x.Rhs) == 1 && x.Tok == token.DEFINE {
+		if ce, ok := x.Rhs[0].(*ast.CallExpr); ok && len(ce.Args) == 1 {
+			if pre, ok := m.g.cfg.envCtors[m.pkgFuncName(ce)]; ok {
+				f, isEnv := m.envField(ce.Args[0])
+				id, isId := x.Lhs[0].(*ast.Ident)
+				if !isEnv || !isId {
+					bad("%s on something that is not an environment field", m.pkgFuncName(ce))
+				}
+				m.aliases[id.Name] = f
+				m.aliasPre[id.Name] = pre
+				return ""
+			}
+		}
+	}
 	// v, ok := w.f.(I)
 	if len(x.Lhs) == 2 && len(x.Rhs) == 1 {
 		if ta, ok := x.Rhs[0].(*ast.TypeAssertExpr); ok {
@@ -1273,18 +1374,34 @@ func translateType(repo string, cfg codeCfg) (string, error) {
 				panic(r)
 			}
 		}()
+		for _, sn := range cfg.structs {
+			so := pkg.Types.Scope().Lookup(sn)
+			if so == nil {
+				bad("type %s not found", sn)
+			}
+			sst, ok := so.Type().Underlying().(*types.Struct)
+			if !ok {
+				bad("%s is not a struct", sn)
+			}
+			out.WriteString(fmt.Sprintf("/-- `type %s struct` of the source, field by field -/\nstructure %s where\n", sn, sn))
+			for i := 0; i < sst.NumFields(); i++ {
+				f := sst.Field(i)
+				out.WriteString(fmt.Sprintf("  %s : %s\n", leanIdent(f.Name()), g.leanType(f.Type())))
+			}
+			out.WriteString("  deriving Inhabited\n\n")
+		}
 		out.WriteString(fmt.Sprintf("/-- `type %s struct` of the source, field by field -/\nstructure %s where\n", cfg.recvType, cfg.recvType))
 		for i := 0; i < st.NumFields(); i++ {
 			f := st.Field(i)
 			out.WriteString(fmt.Sprintf("  %s : %s\n", leanIdent(f.Name()), g.fieldType(f.Type())))
 		}
-		out.WriteString("\n")
+		out.WriteString("  deriving Inhabited\n\n")
 		// one environment-call helper per field of interface type
 		for i := 0; i < st.NumFields(); i++ {
 			f := st.Field(i)
 			if g.fieldType(f.Type()) == "Env" {
 				n := leanIdent(f.Name())
-				out.WriteString(fmt.Sprintf("/-- a call of a method of the environment object `%s` -/\ndef envCall_%s (w : %s) (m : String) (args : List Int) : (Int × Int) × %s :=\n  let (r, e) := w.%s.call m args;\n  (r, { w with %s := e })\n\n",
+				out.WriteString(fmt.Sprintf("/-- a call of a method of the environment object `%s` -/\ndef envCall_%s (w : %s) (m : String) (args : List Arg) : (Int × Int) × %s :=\n  let (r, e) := w.%s.call m args;\n  (r, { w with %s := e })\n\n",
 					f.Name(), f.Name(), cfg.recvType, cfg.recvType, n, n))
 			}
 		}
@@ -1436,7 +1553,7 @@ func (g *goTranslator) method(fd *ast.FuncDecl) (mo *methodOut, err error) {
 	if len(recvNames) != 1 {
 		bad("anonymous receiver")
 	}
-	m := &mctx{g: g, recv: recvNames[0].Name, aliases: map[string]string{}, calls: map[string]bool{}}
+	m := &mctx{g: g, recv: recvNames[0].Name, aliases: map[string]string{}, aliasPre: map[string]string{}, calls: map[string]bool{}}
 	w := leanIdent(m.recv)
 	var params []string
 	for _, f := range fd.Type.Params.List {
@@ -1517,7 +1634,7 @@ func (g *goTranslator) ctor(fd *ast.FuncDecl) (txt string, err error) {
 	if !ok || g.info.Types[cl].Type != types.Type(g.recvT) {
 		bad("constructor does not return &%s{…}", g.cfg.recvType)
 	}
-	m := &mctx{g: g, recv: "\x00", aliases: map[string]string{}, calls: map[string]bool{}}
+	m := &mctx{g: g, recv: "\x00", aliases: map[string]string{}, aliasPre: map[string]string{}, calls: map[string]bool{}}
 	var params []string
 	for _, f := range fd.Type.Params.List {
 		t := g.leanTypeAtom(g.info.Types[f.Type].Type)
